@@ -110,24 +110,26 @@ func AssertEqual(label string, a, b interface{}) {
 	}
 }
 
-func backing(v reflect.Value, seen map[uintptr]bool, out map[uintptr]bool, depth int) {
+// (stop: pointers at which the walk ends - objects that are SHARED with the other side by design,
+// because a pointer is copied as a pointer)
+func backing(v reflect.Value, seen map[uintptr]bool, out map[uintptr]bool, depth int, stop ...map[uintptr]bool) {
 	if depth > 8 || !v.IsValid() {
 		return
 	}
 	switch v.Kind() {
 	case reflect.Ptr:
-		if v.IsNil() || seen[v.Pointer()] {
+		if v.IsNil() || seen[v.Pointer()] || (len(stop) > 0 && stop[0][v.Pointer()]) {
 			return
 		}
 		seen[v.Pointer()] = true
-		backing(v.Elem(), seen, out, depth+1)
+		backing(v.Elem(), seen, out, depth+1, stop...)
 	case reflect.Interface:
 		if !v.IsNil() {
-			backing(v.Elem(), seen, out, depth+1)
+			backing(v.Elem(), seen, out, depth+1, stop...)
 		}
 	case reflect.Struct:
 		for i := 0; i < v.NumField(); i++ {
-			backing(v.Field(i), seen, out, depth+1)
+			backing(v.Field(i), seen, out, depth+1, stop...)
 		}
 	case reflect.Slice:
 		if v.IsNil() {
@@ -137,7 +139,7 @@ func backing(v reflect.Value, seen map[uintptr]bool, out map[uintptr]bool, depth
 			out[v.Slice(0, v.Cap()).Index(0).Addr().Pointer()] = true
 		}
 		for i := 0; i < v.Len(); i++ {
-			backing(v.Index(i), seen, out, depth+1)
+			backing(v.Index(i), seen, out, depth+1, stop...)
 		}
 	}
 }
@@ -145,9 +147,12 @@ func backing(v reflect.Value, seen map[uintptr]bool, out map[uintptr]bool, depth
 // AssertNoAlias states that no slice reachable from a shares its backing array with a slice
 // reachable from b.
 func AssertNoAlias(label string, a, b interface{}) {
+	// a slice behind a pointer that a and b SHARE belongs to one shared object (a pointer element
+	// or field is copied as a pointer): it is no copy, so it cannot alias one
 	ba, bb := map[uintptr]bool{}, map[uintptr]bool{}
-	backing(reflect.ValueOf(a), map[uintptr]bool{}, ba, 0)
-	backing(reflect.ValueOf(b), map[uintptr]bool{}, bb, 0)
+	ptrsB := map[uintptr]bool{}
+	backing(reflect.ValueOf(b), ptrsB, bb, 0)
+	backing(reflect.ValueOf(a), map[uintptr]bool{}, ba, 0, ptrsB)
 	for p := range ba {
 		if bb[p] {
 			Failed = append(Failed, label)
